@@ -299,11 +299,16 @@ def msm_payload_bits(r, n, satbits, sigbits):
 
 
 def bias_payload(r, n, ns, nb):
+    """hostile 1059 / 1065 payload: ns satellite blocks of nb entries each (recognised identifiers), header
+    widths and identifiers from the translated schema"""
+    import json as _json, os as _os
+    sch = _json.load(open(_os.path.join(_os.path.dirname(_os.path.dirname(_os.path.dirname(_os.path.abspath(__file__)))), "work", "schema.json")))
+    hdr = sum(sch["dfs"][x]["len"] for _, x in sch["frags"]["msg%d" % n]["fields"] if x in sch["dfs"])
     satbits = 6 if n == 1059 else 5
-    bits = int_bits(n, 12) + [r.getrandbits(1) for _ in range(20 + 4 + 1 + 4 + 16 + 4)] + int_bits(ns, 6)
-    ids = [0, 1, 2, 5, 6, 7, 8, 9, 10, 11, 14, 15] if n == 1059 else [0, 1, 2, 3]
-    for s in range(ns):
-        bits += int_bits(s % (1 << satbits), satbits) + int_bits(nb, 5)
+    bits = int_bits(n, 12) + [r.getrandbits(1) for _ in range(hdr)] + int_bits(ns, 6)
+    ids = [i for i, _, _ in sch["bias_tables"]["df_msg%d_biases" % n]]
+    for s_ in range(ns):
+        bits += int_bits(s_ % (1 << satbits), satbits) + int_bits(nb, 5)
         for j in range(nb):
             bits += int_bits(ids[j % len(ids)], 5) + [r.getrandbits(1) for _ in range(14)]
     return bits_to_bytes(bits)[:1023]
